@@ -135,6 +135,7 @@ var StyleHandlers = map[string]func(string) bool{
 	"short":      func(v string) bool { return len(v) <= 3 },
 	"always":     func(v string) bool { return true },
 	"never":      func(v string) bool { return false },
+	"no-url":     func(v string) bool { return !strings.Contains(v, "url(") && !strings.Contains(v, "expression(") },
 	"alpha-only": func(v string) bool { return v != "" && strings.Trim(v, "abcdefghijklmnopqrstuvwxyz") == "" },
 }
 
